@@ -323,7 +323,10 @@ def chunk_tail_cases(r, budget):
                 steps += ["s:" + hx(x) for x in parts[1:] if x]
                 steps += ["r", "s:" + hx(probe), "r", "e"]
                 exp = [("R200:0:" + hx(ans)) if ans is not None else "R404:0:e", "R200:0:" + hx(b"1,2"), "OPEN"]
-                # an unread body whose end is still in flight when the handler answers: class K07 (chunked read-ahead) does not
-                # apply here — nothing is sent after the body before the response has been read
-                out.append(("CONN max=4096 script=" + ",".join(steps), exp, {"kinds": ["chunktail"], "early_chunked": False, "ec_idx": None}))
+                # /echo reads the whole body before it answers: the probe is sent after the body has been consumed.  The two routes
+                # that answer WITHOUT reading leave the end of the body to the drop-drain, which may still be running when the
+                # client, having read the response, sends the probe: last body bytes + probe can become readable together —
+                # the recorded finding K07 (chunked read-ahead); those cases belong to that class (seen once on a loaded machine)
+                early = ans != b"hello"
+                out.append(("CONN max=4096 script=" + ",".join(steps), exp, {"kinds": ["chunktail"], "early_chunked": early, "ec_idx": 0 if early else None}))
     return out
